@@ -18,6 +18,8 @@ from collections import Counter
 import numpy as np
 
 from vp import cfgx, cprobes, mk, probes
+from vp.obsutil import (Problem, bucket_dataset, coord_candidates, entry_arrays, label_equal as _label_equal,
+                        positions_of, run_dim_of)
 
 ID = "C05"
 LEVEL = "exploration"
@@ -336,94 +338,13 @@ def build_parameters(case):
 
 # ---------------------------------------------------------------- observation of the result
 
-class Problem(Exception):
-    def __init__(self, code, text):
-        super().__init__(text)
-        self.code, self.text = code, text
-
-
-def bucket_dataset(result):
-    """The dataset that holds pixel/signal/photon with all (inherited) coordinates."""
-    for path in ("/bucket", "/"):
-        try:
-            node = result[path]
-        except Exception:  # noqa: BLE001
-            continue
-        if "pixel" in getattr(node, "data_vars", {}):
-            try:
-                return node.to_dataset(inherit=True)
-            except TypeError:
-                return node.to_dataset()
-    raise Problem("no-data", "result has no 'pixel' variable in / or /bucket")
-
-
-def coord_candidates(key, enabled_keys):
-    """Names under which the value labels of `key` may be stored: the short name (unless two swept keys share
-    it), `<model>.<argument>`, the full key."""
-    short = key.split(".")[-1]
-    shorts = [k.split(".")[-1] for k in enabled_keys]
-    cands = []
-    if shorts.count(short) == 1:
-        cands.append(short)
-    parts = key.split(".")
-    if parts[0] == "pipeline" and len(parts) == 5:
-        cands.append(f"{parts[2]}.{parts[4]}")
-    cands.append(key)
-    return cands
-
-
-def _label_equal(label, value):
-    try:
-        if isinstance(value, tuple):
-            lab = tuple(float(x) for x in (label.tolist() if isinstance(label, np.ndarray) else label))
-            return lab == value
-        if isinstance(label, np.ndarray):
-            if label.size != 1:
-                return False
-            label = label.ravel()[0]
-        return float(label) == value
-    except Exception:  # noqa: BLE001
-        return False
-
-
-def positions_of(ds, name, value):
-    """(dimension, [positions]) of the entries whose coordinate `name` carries the label `value`."""
-    c = ds.coords[name]
-    if c.ndim == 0:
-        raise Problem("label-layout", f"coordinate {name!r} is a scalar")
-    dim = c.dims[0]
-    if c.dtype == object and c.ndim == 1:
-        vals = list(c.values)
-        return dim, [i for i, lab in enumerate(vals) if _label_equal(lab, value)]
-    arr = c.values
-    return dim, [i for i in range(arr.shape[0]) if _label_equal(arr[i], value)]
-
-
 def decode_entry(ds_sel):
     """Decode the single remaining entry (dims time,y,x) into the assignment its data was produced with."""
-    out = {}
-    for var in ("pixel", "signal", "photon"):
-        da = ds_sel[var]
-        extra = [d for d in da.dims if d not in ("time", "y", "x")]
-        for d in extra:
-            if da.sizes[d] != 1:
-                raise Problem("entries", f"after selecting by all labels, dimension {d!r} still has {da.sizes[d]} entries")
-        da = da.squeeze(extra, drop=True) if extra else da
-        arr = np.asarray(da.isel(time=0).transpose("y", "x").values, dtype=float)
-        if np.isnan(arr).any():
-            raise Problem("entry-missing", f"the selected entry of {var!r} holds NaN (no run stored there)")
-        out[var] = arr
+    out = {k: np.asarray(v[0], dtype=float) for k, v in entry_arrays(ds_sel).items()}
     p1, p2 = cprobes.decode_slot(out["pixel"]), cprobes.decode_slot(out["signal"])
     return {"T": float(out["photon"].flat[0]), "Q": float(out["photon"].flat[1]),
             "A1": p1["a"], "B1": p1["b"], "V1": tuple(p1["v"]),
             "A2": p2["a"], "B2": p2["b"], "V2": tuple(p2["v"])}
-
-
-def run_dim_of(ds):
-    extra = [d for d in ds["pixel"].dims if d not in ("time", "y", "x")]
-    if len(extra) != 1:
-        raise Problem("label-layout", f"expected one run dimension, result has dimensions {extra}")
-    return extra[0]
 
 
 # ---------------------------------------------------------------- the check
